@@ -7,6 +7,7 @@
 //!   simnode segment --scenario F --dir D --from K ... -> SegmentOut JSON (internal)
 mod bigmath;
 mod exec;
+mod lc;
 mod model;
 mod node;
 mod pool;
